@@ -230,8 +230,6 @@ class Interpreter(BaseInterpreter[TContext, TEvent]):
 
         logger.info("🏁 Starting interpreter '%s'...", self.id)
         self.status = "running"
-        # 🌀 Launch the main event loop as a background task.
-        self._event_loop_task = asyncio.create_task(self._run_event_loop())
 
         try:
             # 🔔 Notify plugins that the interpreter is starting.
@@ -253,6 +251,17 @@ class Interpreter(BaseInterpreter[TContext, TEvent]):
             # unrelated event happened to nudge it. `start()` must return a
             # settled configuration in BOTH engines.
             await self._settle_transient_transitions()
+
+            # 🌀 Launch the main event loop only now. Started before the
+            #    initial entry, the consumer ran whenever an entry action
+            #    awaited, so an event raised during start-up was processed
+            #    concurrently with the half-built initial configuration.
+            #    Events raised meanwhile wait in the queue, exactly as the
+            #    sync engine defers them until entry has settled.
+            if self.status == "running":
+                self._event_loop_task = asyncio.create_task(
+                    self._run_event_loop()
+                )
 
             logger.info(
                 "✅ Interpreter '%s' started successfully. Current states: %s",
